@@ -105,8 +105,109 @@ pub fn dict() -> &'static Vec<Vec<u8>> {
         }
         // description strings of the Error type are not protocol tokens, but harmless
         out.truncate(96);
+        // byte strings assembled from the numeric constants that one function compares bytes
+        // with (a protocol sniffer such as `first == 0x16 && rest[0] == 0x03 && rest[4] == 0x01`)
+        for f in ["src/lib.rs", "src/iter.rs", "src/macros.rs"] {
+            if let Ok(s) = std::fs::read_to_string(format!("{}/{}", root, f)) {
+                let cut = s.find("#[cfg(test)]\nmod tests").or_else(|| s.find("#[test]")).unwrap_or(s.len());
+                for t in cmp_const_tokens(&s[..cut]) {
+                    if !out.contains(&t) && out.len() < 160 {
+                        out.push(t);
+                    }
+                }
+            }
+        }
         out
     })
+}
+
+/// For every function body that compares bytes with >= 3 numeric / byte-literal constants:
+/// candidate byte strings that satisfy those comparisons, placing un-indexed comparisons
+/// first (in source order) and `x[i] == c` at offset i (both directly and shifted by the
+/// number of un-indexed ones).
+pub fn cmp_const_tokens(src: &str) -> Vec<Vec<u8>> {
+    let mut out = vec![];
+    // strip line comments
+    let code: String = src.lines().map(|l| l.split("//").next().unwrap_or("")).collect::<Vec<_>>().join("\n");
+    for body in code.split("\nfn ").chain(code.split(" fn ")) {
+        let b = body.as_bytes();
+        let mut items: Vec<(Option<usize>, u8)> = vec![];
+        let mut i = 0;
+        while i + 1 < b.len() {
+            let op2 = &b[i..i + 2];
+            let is_cmp = op2 == b"==" || op2 == b"<=" || op2 == b">=" || op2 == b"!=";
+            if !is_cmp {
+                i += 1;
+                continue;
+            }
+            // literal to the right
+            let mut j = i + 2;
+            while j < b.len() && b[j] == b' ' {
+                j += 1;
+            }
+            let rest = &body[j..];
+            let val: Option<u8> = if let Some(h) = rest.strip_prefix("0x") {
+                let d: String = h.chars().take_while(|c| c.is_ascii_hexdigit()).collect();
+                u8::from_str_radix(&d, 16).ok()
+            } else if rest.starts_with("b'") && rest.len() >= 4 && rest.as_bytes()[3] == b'\'' {
+                Some(rest.as_bytes()[2])
+            } else {
+                let d: String = rest.chars().take_while(|c| c.is_ascii_digit()).collect();
+                if d.is_empty() { None } else { d.parse::<u8>().ok() }
+            };
+            // index to the left:  ident[IDX] <op>
+            let mut k = i;
+            while k > 0 && b[k - 1] == b' ' {
+                k -= 1;
+            }
+            if k > 0 && b[k - 1] == b')' {
+                // a call result (`x.len() >= 5`) is not a byte of the input
+                i += 2;
+                continue;
+            }
+            let idx: Option<usize> = if k > 0 && b[k - 1] == b']' {
+                let open = body[..k - 1].rfind('[');
+                open.and_then(|o| body[o + 1..k - 1].trim().parse::<usize>().ok())
+            } else {
+                None
+            };
+            if let Some(v) = val {
+                let v = if op2 == b"!=" { v.wrapping_add(1) } else { v };
+                items.push((idx, v));
+            }
+            i += 2;
+        }
+        if items.len() < 3 || items.len() > 24 {
+            continue;
+        }
+        let n_plain = items.iter().filter(|x| x.0.is_none()).count();
+        for shift in [n_plain, 0usize] {
+            let mut t = vec![b'a'; 0];
+            let mut p = 0;
+            for (idx, v) in &items {
+                let at = match idx {
+                    None => {
+                        let a = p;
+                        p += 1;
+                        a
+                    }
+                    Some(ix) => shift + ix,
+                };
+                if at >= 32 {
+                    continue;
+                }
+                if t.len() <= at {
+                    t.resize(at + 1, b'a');
+                }
+                t[at] = *v;
+            }
+            if t.len() >= 3 && !out.contains(&t) {
+                out.push(t);
+            }
+        }
+    }
+    out.truncate(64);
+    out
 }
 
 pub fn extract_literals(src: &str) -> Vec<Vec<u8>> {
